@@ -127,7 +127,7 @@ _UNDECIDED = re.compile(
     r"cannot normalise|not normalised|cannot be normalised|cannot be "
     r"modelled|case analysis failed|cannot summarise|"
     r"not understood|cannot be case-split|cannot model|could not be "
-    r"normalised|analysis does not track")
+    r"normalised|analysis does not track|not recognised")
 
 
 def is_undecided(o: Obligation) -> bool:
